@@ -52,3 +52,40 @@ impl<Out, IndexFn> NextStrategy<Out, IndexFn> {
     { unimplemented!() }
 }
 '''
+
+# ---- WatermarkFrontier (src/operator/start/watermark_frontier.rs) -------------------------------
+# view: entries() : Map<Coord, Option<Timestamp>> (latest watermark per upstream replica), front() : last value reported
+FRONTIER_SPEC = r'''
+spec fn announce(before: Option<Timestamp>, after: Option<Timestamp>) -> Option<Timestamp> {
+    match (before, after) {
+        (None, Some(n)) => Some(n),
+        (Some(o), Some(n)) => if o != n { Some(n) } else { None },
+        _ => None,
+    }
+}
+// v is the frontier of the entries: None while some replica has no watermark yet, else the minimum
+spec fn frontier_of(e: Map<Coord, Option<Timestamp>>, v: Option<Timestamp>) -> bool {
+    if exists|c: Coord| e.contains_key(c) && #[trigger] e[c] is None { v is None }
+    else if e.dom() =~= Set::empty() { v is None }
+    else {
+        &&& v is Some
+        &&& forall|c: Coord| e.contains_key(c) ==> v->0 <= (#[trigger] e[c])->0
+        &&& exists|c: Coord| e.contains_key(c) && (#[trigger] e[c])->0 == v->0
+    }
+}
+spec fn raised(old_: Option<Timestamp>, ts: Timestamp) -> Option<Timestamp> {
+    match old_ { Some(t) => if t >= ts { Some(t) } else { Some(ts) }, None => Some(ts) }
+}
+'''
+FRONTIER_UPDATE_REQUIRES = "old(self).entries().contains_key(coord), frontier_of(old(self).entries(), old(self).front()),"
+FRONTIER_UPDATE_ENSURES = """
+            final(self).entries() == old(self).entries().insert(coord, raised(old(self).entries()[coord], ts)),
+            final(self).entries().dom() == old(self).entries().dom(),
+            old(self).front() is Some ==> final(self).front() is Some && final(self).front()->0 >= old(self).front()->0,
+            frontier_of(final(self).entries(), final(self).front()),
+            r == announce(old(self).front(), final(self).front()),
+            (r is Some && old(self).front() is Some) ==> r->0 > old(self).front()->0,"""
+FRONTIER_RESET_ENSURES = """
+            final(self).front() is None,
+            final(self).entries().dom() == old(self).entries().dom(),
+            forall|c: Coord| final(self).entries().contains_key(c) ==> (#[trigger] final(self).entries()[c]) is None,"""
